@@ -1,7 +1,18 @@
 """C02 - resident cost within MaxSize once writes drain; nothing untracked."""
-import storecheck
+import os
+import storecheck, storelib
+
+
+def extra(work, v, thorough):
+    # hybrid caches: resident entries within MaxSize once writes and the secondary workers have drained (HybridTrace)
+    out = storelib.run_driver(work, "TestVerif_Hybrid", "hybrid", env={"VERIF_N": 400 if thorough else 60}, timeout=2400)
+    tf = os.path.join(out, "hybrid.ndjson")
+    res = storelib.validate(work, tf, "hybrid", module="HybridTrace", cfg="HybridTrace.cfg", timeout=3000)
+    storelib.report(v, work, "C02", tf, res)
+    return {"hybrid_histories": res["traces"], "_traces": res["traces"]}
 
 PLAN = {
+    "extra": extra,
     "api": True,
     "mc": [("StoreMC_acct.cfg", False), ("StoreMC_exp_small.cfg", False), ("StoreMC_exp.cfg", True)],
     "sims": [("StoreSim_acct.cfg", 250, 2000, 61), ("StoreSim_delta.cfg", 1500, 8000, 46)],
